@@ -194,6 +194,29 @@ func binaryCmp(e ast.Expr) (x, y ast.Expr, op token.Token, ok bool) {
 	return nil, nil, 0, false
 }
 
+// cmpOn is binaryCmp oriented so that left(x) holds (the operator is mirrored when the operands
+// are exchanged); comparisons of two non-constant operands have no canonical order in the source.
+func cmpOn(e ast.Expr, left func(ast.Expr) bool) (x, y ast.Expr, op token.Token, ok bool) {
+	x, y, op, ok = binaryCmp(e)
+	if !ok || left(x) {
+		return
+	}
+	if left(y) {
+		switch op {
+		case token.LSS:
+			op = token.GTR
+		case token.GTR:
+			op = token.LSS
+		case token.LEQ:
+			op = token.GEQ
+		case token.GEQ:
+			op = token.LEQ
+		}
+		return y, x, op, true
+	}
+	return
+}
+
 // indexOf decomposes m[k].
 func indexOf(e ast.Expr) (m, k ast.Expr, ok bool) {
 	ix, isIx := ast.Unparen(e).(*ast.IndexExpr)
